@@ -283,4 +283,92 @@ theorem semMbs_levels (hdr : PicHdr) (dims : Option (Nat × Nat)) (running m : N
           rw [this, List.getD_cons_succ, List.getD_cons_succ]
         · rw [if_neg hin, if_neg (by simp only [List.length_cons]; omega)]
 
+/-! ### the vector array -/
+
+/-- the four luma vectors the loop files for a macroblock, given the vectors filed so far: zero for not-coded and INTRA macroblocks;
+for INTER ones each vector is the candidate-median predictor over the vectors filed so far (and, with four vectors, the ones of
+this macroblock decoded before it) plus the coded differential, wrapped (`mvDecode`, C12) -/
+def mbVec (hdr : PicHdr) (dims : Option (Nat × Nat)) (running m : Nat) (prev : Array Mv4) (mb : MbD) : Out Mv4 :=
+  match mb.kind with
+  | .notCoded => .ok zeroMv4
+  | .coded t _ mvd mvd234 _ =>
+    if t.isInter then do
+      let p1 ← predictCandidate prev zeroMv4 m 0
+      let m0 := mvDecode hdr dims running p1 mvd
+      let cur : Mv4 := (m0, zeroMv, zeroMv, zeroMv)
+      if t.hasFourVec then do
+        let p2 ← predictCandidate prev cur m 1
+        let cur := cur.set 1 (mvDecode hdr dims running p2 mvd234.1)
+        let p3 ← predictCandidate prev cur m 2
+        let cur := cur.set 2 (mvDecode hdr dims running p3 mvd234.2.1)
+        let p4 ← predictCandidate prev cur m 3
+        let cur := cur.set 3 (mvDecode hdr dims running p4 mvd234.2.2)
+        pure cur
+      else pure (m0, m0, m0, m0)
+    else pure zeroMv4
+
+def MvChain (hdr : PicHdr) (dims : Option (Nat × Nat)) (running m : Nat) : Array Mv4 → List MbD → List Mv4 → Prop
+  | _, [], [] => True
+  | prev, mb :: ms, v :: vs => mbVec hdr dims running m prev mb = .ok v ∧ MvChain hdr dims running m (prev.push v) ms vs
+  | _, _, _ => False
+
+theorem semMb_vector (hdr : PicHdr) (dims : Option (Nat × Nat)) (running m : Nat) (l l' : Loop) (mb : MbD)
+    (h : semMb hdr dims running m l mb = .ok l') :
+    ∃ v, mbVec hdr dims running m l.mvs mb = .ok v ∧ l'.mvs = l.mvs.push v := by
+  unfold semMb at h
+  unfold mbVec
+  cases hk : mb.kind with
+  | notCoded =>
+    rw [hk] at h
+    simp only at h
+    split at h
+    · cases h
+    · simp only [Out.ok.injEq] at h
+      subst h
+      exact ⟨zeroMv4, rfl, rfl⟩
+  | coded t dq mvd mvd234 blocks =>
+    rw [hk] at h
+    simp only at h
+    unfold codedMbSem at h
+    obtain ⟨q, _, h⟩ := out_bind_ok _ _ _ h
+    obtain ⟨mvs, emv, h⟩ := out_bind_ok _ _ _ h
+    obtain ⟨l0, _, h⟩ := out_bind_ok _ _ _ h
+    obtain ⟨l1, _, h⟩ := out_bind_ok _ _ _ h
+    obtain ⟨l2, _, h⟩ := out_bind_ok _ _ _ h
+    obtain ⟨l3, _, h⟩ := out_bind_ok _ _ _ h
+    obtain ⟨cb, _, h⟩ := out_bind_ok _ _ _ h
+    obtain ⟨cr, _, h⟩ := out_bind_ok _ _ _ h
+    cases h
+    refine ⟨mvs, ?_, rfl⟩
+    simp only
+    cases hi : t.isInter with
+    | false => rw [hi] at emv; simpa using emv
+    | true =>
+      rw [hi] at emv
+      simp only [↓reduceIte, Option.getD_some] at emv ⊢
+      cases h4 : t.hasFourVec with
+      | false => rw [h4] at emv; simpa using emv
+      | true => rw [h4] at emv; simpa using emv
+
+/-- **The vector array after the macroblock loop**: one entry per macroblock, each computed from the entries before it. -/
+theorem semMbs_vectors (hdr : PicHdr) (dims : Option (Nat × Nat)) (running m : Nat) :
+    ∀ (mbs : List MbD) (l l' : Loop), semMbs hdr dims running m mbs l = .ok l' →
+      ∃ vs, MvChain hdr dims running m l.mvs mbs vs ∧ l'.mvs = l.mvs ++ vs.toArray := by
+  intro mbs
+  induction mbs with
+  | nil =>
+    intro l l' h
+    simp only [semMbs, Out.ok.injEq] at h
+    subst h
+    exact ⟨[], trivial, by simp⟩
+  | cons mb ms ih =>
+    intro l l' h
+    simp only [semMbs] at h
+    obtain ⟨l1, e1, e2⟩ := out_bind_ok _ _ _ h
+    obtain ⟨v, hv, hp⟩ := semMb_vector hdr dims running m l l1 mb e1
+    obtain ⟨vs, hc, ht⟩ := ih l1 l' e2
+    refine ⟨v :: vs, ⟨hv, by rw [← hp]; exact hc⟩, ?_⟩
+    rw [ht, hp]
+    simp
+
 end H263V.Lemmas.LevelArrays
